@@ -134,18 +134,22 @@ def step (line : String) : String :=
     if op = "onode" || op = "olist" || op = "otestfs" then "bad-op" else
     match parseTree tree, unhx wd, unhx path with
     | some root, some wd, some path =>
+      let cd := op = "cfind" || op = "cstat" || op = "copen"
+      let wd' := if cd then wd else pathClean wd
+      let op := if cd then (op.drop 1).toString else op
       if op = "find" then
-        match findNode root (comps (pathJoin [pathClean wd, path])) with
+        match findNode root (comps (pathJoin [wd', path])) with
         | none => "notexist"
         | some (.file f) => "file:" ++ hx f.name
         | some (.dir n _) => "dir:" ++ hx n
         | some (.link l) => "link:" ++ hx l.name ++ ":" ++ hx l.target
       else if op = "stat" then
-        match stat root wd path with
+        match (if cd then statCD root wd path else stat root wd path) with
         | none => "notexist"
         | some i => infoStr i
       else if op = "open" then
-        match openFS root (symlinkCount tree.length root + 2) wd path with
+        match (if cd then openCD root (symlinkCount tree.length root + 2) wd path
+               else openFS root (symlinkCount tree.length root + 2) wd path) with
         | .notExist => "notexist"
         | .absLink => "abslink"
         | .outOfFuel => "crash"
